@@ -197,8 +197,20 @@ def proof_obligations(pid):
                 examples=examples, axioms=sorted(set(axioms)), ok=ok, rc=rc, output=out[-4000:])
 
 
-def run_cases(binary, kind, lines, timeout=1200, env=None):
+def run_cases(binary, kind, lines, timeout=1200, env=None, shards=1):
     """Feed case lines to a runner, return ({id: result}, begun_ids, rc, raw_tail)."""
+    if shards > 1 and len(lines) > 4 * shards:
+        from concurrent.futures import ThreadPoolExecutor
+        parts = [lines[i::shards] for i in range(shards)]
+        with ThreadPoolExecutor(shards) as ex:
+            rs = list(ex.map(lambda p: run_cases(binary, kind, p, timeout, env, 1), parts))
+        res, begun, rc, tail = {}, [], 0, ""
+        for r in rs:
+            res.update(r[0])
+            begun += r[1]
+            rc = rc or r[2]
+            tail += r[3]
+        return res, begun, rc, tail[-3000:]
     inp = "\n".join(lines) + "\n"
     try:
         p = subprocess.run([binary, kind], input=inp, stdout=subprocess.PIPE, stderr=subprocess.PIPE,
